@@ -45,17 +45,20 @@ type ReplayFile struct {
 }
 
 type report struct {
-	prop, tier string
-	seed       int64
-	check      *CheckCfg
-	sel        []*HarnessCfg
-	outs       []*WorkerOut
-	results    []*HarnessResult
-	wall       float64
-	machinery  []string // machinery failures (exit 2)
-	replays    int
-	replayOK   int
-	mismatch   []string
+	prop, tier  string
+	seed        int64
+	check       *CheckCfg
+	sel         []*HarnessCfg
+	outs        []*WorkerOut
+	results     []*HarnessResult
+	wall        float64
+	machinery   []string // machinery failures (exit 2)
+	replays     int
+	replayOK    int
+	mismatch    []string
+	exploreSecs float64
+	noOutcome   []string
+	buildSecs   float64
 }
 
 func newReport(prop, tier string, seed int64, c *CheckCfg, sel []*HarnessCfg, outs []*WorkerOut) *report {
@@ -144,7 +147,9 @@ func runReplayBinary(bin, tmp string, cases []Case, memLimitKB int, timeout time
 	sh := fmt.Sprintf("ulimit -v %d; exec timeout -s KILL %d %s -test.run '^TestZZVerifReplay$' -test.count=1 -test.timeout=0", memLimitKB, int(timeout.Seconds()), bin)
 	cmd := exec.Command("bash", "-c", sh)
 	cmd.Dir = os.TempDir()
-	cmd.Env = append(os.Environ(), "VERIF_REPLAY="+cf.Name(), "VERIF_REPLAY_OUT="+of)
+	// two threads: under the faketime runtime the clock advances only when every P is idle, which takes long when
+	// eight replay processes with 16 Ps each compete for the machine (a 10-minute virtual sleep then needs > 30 s)
+	cmd.Env = append(os.Environ(), "VERIF_REPLAY="+cf.Name(), "VERIF_REPLAY_OUT="+of, "GOMAXPROCS=2")
 	out, _ := cmd.CombinedOutput()
 	var outs []Outcome
 	if ob, err := os.ReadFile(of); err == nil {
@@ -238,7 +243,9 @@ func (r *report) replayAll(tmp string) {
 		if !need {
 			continue
 		}
+		tb := time.Now()
 		bin, err := buildReplayBinary(tmp, pkg, names)
+		r.buildSecs += time.Since(tb).Seconds()
 		if err != nil {
 			r.machinery = append(r.machinery, "native replay build failed for "+pkg+": "+err.Error())
 			continue
@@ -273,13 +280,19 @@ func (r *report) replayAll(tmp string) {
 						defer wg.Done()
 						sem <- struct{}{}
 						defer func() { <-sem }()
-						o1, r1 := runReplayBinary(bin, tmp, []Case{c}, 8<<20, 150*time.Second)
+						o1, r1 := runReplayBinary(bin, tmp, []Case{c}, 8<<20, 30*time.Second)
 						mu.Lock()
 						defer mu.Unlock()
 						if len(o1) > 0 {
 							got[c.ID] = &o1[0]
 						} else {
 							raw = r1
+							// keep the inputs of a native run that gave no outcome (it is repeated below)
+							hdir := filepath.Join(verifDir, "replays", r.prop)
+							os.MkdirAll(hdir, 0o755)
+							hb, _ := json.MarshalIndent(ReplayFile{Property: r.prop, Pkg: pkg, Case: c, Expect: &Violation{Kind: "hang", Label: "native replay gave no outcome within 30 s"}}, "", " ")
+							os.WriteFile(filepath.Join(hdir, fmt.Sprintf("nooutcome-%s-%d.json", c.Harness, len(r.noOutcome))), hb, 0o644)
+							r.noOutcome = append(r.noOutcome, c.ID+": "+lastLines(r1, 2))
 						}
 					}(c)
 				}
@@ -468,8 +481,8 @@ func (r *report) finish() int {
 			q += wo.Stats.Queries
 		}
 	}
-	fmt.Printf("%s %s: %d harnesses, %d paths, %d SSA instructions, %d obligations, %d solver queries, %d/%d native replays agree, %.1fs => exit %d\n",
-		r.prop, r.tier, len(r.results), paths, instrs, obl, q, r.replayOK, r.replays, r.wall, exit)
+	fmt.Printf("%s %s: %d harnesses, %d paths, %d SSA instructions, %d obligations, %d solver queries, %d/%d native replays agree, %.1fs (explore %.0fs, replay build %.0fs) => exit %d\n",
+		r.prop, r.tier, len(r.results), paths, instrs, obl, q, r.replayOK, r.replays, r.wall, r.exploreSecs, r.buildSecs, exit)
 	return exit
 }
 
@@ -600,6 +613,7 @@ func (r *report) writeEvidence(viol int) {
 			"native_replays":                r.replays,
 			"native_replays_agree":          r.replayOK,
 			"engine_mismatches":             r.mismatch,
+			"native_replays_repeated":       r.noOutcome,
 			"machinery_failures":            r.machinery,
 			"reduced_bounds":                reduced,
 		},
@@ -638,7 +652,11 @@ func cmdReplay(args []string) int {
 		fatalf("%v", err)
 	}
 	tmp, _ := os.MkdirTemp("", "gosym-replay-")
-	defer os.RemoveAll(tmp)
+	if os.Getenv("GOSYM_KEEP") != "" {
+		fmt.Fprintf(os.Stderr, "keeping %s\n", tmp)
+	} else {
+		defer os.RemoveAll(tmp)
+	}
 	bin, err := buildReplayBinary(tmp, rf.Pkg, []string{rf.Case.Harness})
 	if err != nil {
 		fatalf("%v", err)
